@@ -184,6 +184,16 @@ func inRange(v *big.Int) bool { return v.Sign() > 0 && v.Cmp(ref.N) < 0 }
 
 // checkDERSig is the oracle for one byte string (shared with the fuzz target).
 func checkDERSig(fail func(string, ...any), x []byte) bool {
+	// hand the parser a slice cut out of a larger caller buffer; it must neither write to it nor past it
+	if adj, unchanged := gen.Adjacent(x); true {
+		orig := x
+		x = adj[0]
+		defer func() {
+			if !unchanged() {
+				fail("parser modified its caller's buffer (input %x)", orig)
+			}
+		}()
+	}
 	wr, ws, ok := ref.ParseDERSigStrict(x)
 	var (
 		r, s *secp256k1.Scalar
@@ -246,6 +256,16 @@ func propDERSig(t *rapid.T) {
 func TestC12_DERSig(t *testing.T) { rapid.Check(t, propDERSig) }
 
 func checkCompact(fail func(string, ...any), x []byte) (bool, bool) {
+	// hand the parser a slice cut out of a larger caller buffer; it must neither write to it nor past it
+	if adj, unchanged := gen.Adjacent(x); true {
+		orig := x
+		x = adj[0]
+		defer func() {
+			if !unchanged() {
+				fail("parser modified its caller's buffer (input %x)", orig)
+			}
+		}()
+	}
 	wr, ws, ok64 := ref.ParseCompactStrict(x)
 	var (
 		r, s *secp256k1.Scalar
@@ -312,6 +332,16 @@ func TestC12_Compact(t *testing.T) { rapid.Check(t, propCompact) }
 // ---- BIP-66 ------------------------------------------------------------------
 
 func checkBIP66(fail func(string, ...any), x []byte) bool {
+	// hand the parser a slice cut out of a larger caller buffer; it must neither write to it nor past it
+	if adj, unchanged := gen.Adjacent(x); true {
+		orig := x
+		x = adj[0]
+		defer func() {
+			if !unchanged() {
+				fail("parser modified its caller's buffer (input %x)", orig)
+			}
+		}()
+	}
 	want := ref.IsBIP66(x)
 	var got bool
 	if p := lib.Catch(func() { got = bitcoin.IsValidSignatureEncodingBIP0066(x) }); p != nil {
@@ -458,6 +488,16 @@ func shiftLeft(b []byte, k uint) ([]byte, bool) {
 }
 
 func checkSPKI(fail func(string, ...any), x []byte) bool {
+	// hand the parser a slice cut out of a larger caller buffer; it must neither write to it nor past it
+	if adj, unchanged := gen.Adjacent(x); true {
+		orig := x
+		x = adj[0]
+		defer func() {
+			if !unchanged() {
+				fail("parser modified its caller's buffer (input %x)", orig)
+			}
+		}()
+	}
 	want, ok := ref.ParseSPKIStrict(x)
 	var (
 		pk  *secec.PublicKey
